@@ -526,6 +526,21 @@ pub fn shape_sweep(rep: &mut Report, thorough: bool) {
         docs.push(json!({"#": h, "f♭": [{"_id": "x", "p": 1}]}));
         docs.push(json!({"a": {"#": h, "p": 1}, "f♭": [{"_id": "x", "p": {"#": h}}]}));
     }
+    // the flattening marker anywhere but at the END of a key is an ordinary character: the value stays opaque
+    for k in ["n♭d", "♭n", "n♭ "] {
+        let mut o = serde_json::Map::new();
+        o.insert(k.to_string(), json!([{"v": 1}, {"v": 2}]));
+        docs.push(Value::Object(o.clone()));
+        o.insert(k.to_string(), json!({"v": 1}));
+        docs.push(Value::Object(o.clone()));
+        o.insert(k.to_string(), json!([{"_id": "x", "v": 9}]));
+        o.insert("f♭".into(), json!([{"_id": "x", "v": 1}]));
+        docs.push(Value::Object(o.clone()));
+        let mut inner = serde_json::Map::new();
+        inner.insert("_id".into(), json!("x"));
+        inner.insert(k.to_string(), json!([{"v": 1}, {"v": 2}, {"_id": "x", "v": 3}]));
+        docs.push(json!({"f♭": [Value::Object(inner)]}));
+    }
     // the other names the storage format uses internally, as user keys and values of tracked objects and of the root
     for k in ["_deleted", "_resolved", "A", "a", "p", "c", "o", "i", "k", "e", "d", "r", "√", "^", "!", "♭", "@"] {
         for val in [json!(true), json!(["y"]), json!([["i", 0, ["z"]]]), json!("d"), json!({"A": ["q"]})] {
